@@ -1,8 +1,11 @@
 import Brax.Model.C02
+import Brax.Spec.C02
 /-! line protocol driver for C02
 
 * `dyn <sys> <q> <qd> <act>` (Float): every stage of the generalized pipeline's dynamics:
   `root_com | cinr | cd | cdof | cdofd | mass_mx | bias | passive | tau | qf_smooth | q' | qd' | qdd | mass_mx'`
+* `mjdyn <sys> <q> <qd> <ctrl>` (Float): the Spec (MuJoCo's algorithms):
+  `root_com | cinert | crb | cdof | cvel | cdof_dot | M | qfrc_bias | qfrc_passive | qfrc_actuator | qfrc_smooth | qpos' | qvel'`
 * `lat.mass <types> <parents> <cinr…> <cdof…> <armature…>` (Rat, exact): `mass.matrix`
 * `lat.inv  <types> <parents> <gravity> <cinr…> <cd…> <cdof…> <cdofd…> <qd…>` (Rat): `dynamics.inverse`
 * `lat.fwd  <sys> <q> <qd> <bias…> <tau…>` (Rat): `_passive` and `forward`
@@ -40,6 +43,25 @@ def dynF (s : Sys Float) (q qd act : List Float) : String :=
     sec (f.map Wire.render) ++
     sec (r.1.1.map Wire.render) ++ sec (r.1.2.1.map Wire.render) ++ sec (r.1.2.2.map Wire.render) ++
     matToks r.2.massMx)
+
+def cinertToks {α : Type} [Wire α] (c : MjD.CInert α) : List String :=
+  c.h.toks ++ c.i.toks ++ [Wire.render c.mass]
+
+/-- Spec side: MuJoCo's algorithms -/
+def mjDynF (s : Sys Float) (q qd act : List Float) : String :=
+  let d := MjD.forwardData s q qd act
+  let r := MjD.eulerStep gaussSolve s d q qd (List.replicate s.nv 0)
+  joinToks (
+    sec (d.rootCom.flatMap V3.toks) ++
+    sec (d.cinert.flatMap cinertToks) ++
+    sec (d.crb.flatMap cinertToks) ++
+    sec (d.cdof.flatten.flatMap Motion.toks) ++
+    sec (d.cvel.flatMap Motion.toks) ++
+    sec (d.cdofDot.flatten.flatMap Motion.toks) ++
+    sec (matToks d.fullM) ++
+    sec (d.qfrcBias.map Wire.render) ++ sec (d.qfrcPassive.map Wire.render) ++
+    sec (d.qfrcActuator.map Wire.render) ++ sec (d.qfrcSmooth.map Wire.render) ++
+    sec (r.1.map Wire.render) ++ r.2.map Wire.render)
 
 def readDyn : Rd (Sys Float × List Float × List Float × List Float) := do
   let s ← Rd.sys
@@ -85,6 +107,12 @@ def stepLine (line : String) : String :=
     | some (s, q, qd, act) =>
       if !s.WF || q.length != s.nq || qd.length != s.nv || act.length != s.acts.length then "bad-args"
       else dynF s q qd act
+    | none => "bad-args"
+  | "mjdyn" :: ts =>
+    match Rd.run readDyn ts with
+    | some (s, q, qd, act) =>
+      if !s.WF || q.length != s.nq || qd.length != s.nv || act.length != s.acts.length then "bad-args"
+      else mjDynF s q qd act
     | none => "bad-args"
   | "lat.mass" :: ts =>
     match Rd.run readLat ts with
